@@ -101,8 +101,29 @@ def r2(run: Run, src, g, em):
 def r3(run: Run, src):
     """workbook-keyed lookups are guarded"""
     lib = library_exceptions(src)
-    # (a) title -> index
-    fi = src.func('handle_cell')
+    # (a) title -> index: an unknown title ends in a library exception.  Decided by evaluation of handle_cell (shared with C02.R3);
+    #     the structural reading below is the fallback
+    from . import c02 as _c02
+    sub_ = Run('tmp', run.tier, run.seed, quiet=True)
+    by_eval = True
+    try:
+        _c02.r3_eval(sub_, src)
+    except AnalysisError:
+        by_eval = False
+    if by_eval:
+        for o_ in sub_.obligations:
+            if o_['verdict'] == 'holds':
+                run.ok('C06.R3', o_['construct'], o_['fact'], loc=o_['loc'])
+        for f_ in sub_.findings:
+            run.bad('C06.R3', f_['construct'], f_['sub'], f_['message'], loc=f_['loc'])
+    else:
+        _title_lookup_guarded(run, src, lib)
+    _rest_of_r3(run, src, lib)
+
+
+def _title_lookup_guarded(run: Run, src, lib):
+    from .common import inlined_function as _inl_hc
+    fi = _inl_hc(src, 'handle_cell')
     fn = fi.node
     parents = parent_map(fn)
     titles_param = fi.params[1] if len(fi.params) > 1 else None
@@ -155,6 +176,57 @@ def r3(run: Run, src):
         run.bad('C06.R3', f'handle_cell/{titles_param}.get', 'default-sheet',
                 'the title is looked up with dict.get: an unknown title resolves to a default instead of being rejected',
                 loc=loc_of(fi.module.path, gcall))
+
+
+def _fill_cell_eval(run: Run, src):
+    """(b) by abstract evaluation (engine F) of Excel._fill_cell on a small ragged workbook: inside the stored data the stored
+    value, outside it (any coordinate negative or too large) a blank -- never an IndexError"""
+    from ..finite import Evaluator, AV, const_av, Unknown, AbsRaise
+    ex = src.cls('Excel')
+    fc = ex.methods.get('_fill_cell')
+    if fc is None:
+        raise AnalysisError('C06.R3', 'Excel._fill_cell not found')
+    members = {n: m.node for n, m in ex.methods.items()}
+
+    def lst(x):
+        return AV('list', items=tuple(lst(y) for y in x)) if isinstance(x, list) else const_av(x)
+    data = lst([[[10, 20], [30]], [[40]]])
+    cases = [((0, 0, 0), 10), ((0, 1, 0), 20), ((0, 0, 1), 30), ((1, 0, 0), 40), ((0, 1, 1), None), ((2, 0, 0), None), ((0, 0, 5), None),
+             ((0, 7, 0), None), ((-1, 0, 0), None), ((0, -1, 0), None), ((0, 0, -1), None), ((1, 1, 0), None)]
+    for (t, c, r), want in cases:
+        ev = Evaluator(members, max_depth=8)
+        me = ev.new_obj('Excel', {'_data': data})
+        cell = ev.new_obj('Cell', {'title': const_av(t), 'column': const_av(c), 'row': const_av(r), 'value': const_av(None),
+                                   'uid': const_av(f'_{t}_{c}_{r}'), '_handled_identifiers': const_av(True)})
+        construct = f'Excel._fill_cell/sheet {t}, column {c}, row {r}'
+        try:
+            ev.call_method('_fill_cell', [cell], me)
+        except Unknown as u:
+            raise AnalysisError('C06.R3', f'{construct}: the abstraction cannot follow _fill_cell ({u})')
+        except AbsRaise as e:
+            run.bad('C06.R3', construct, f'raises:{e.exc}', f'_fill_cell raises {e.exc} for a cell at sheet {t}, column {c}, row {r} of a '
+                    f'workbook with the rows [[10, 20], [30]] and [[40]]: a reference outside the stored data must read as blank',
+                    loc=loc_of(fc.module.path, fc.node))
+            continue
+        got = ev.obj_attrs(cell)['value']
+        gv = None if got.kind == 'none' else got.val
+        run.check(gv == want, 'C06.R3', construct, 'wrong-cell-read',
+                  f'_fill_cell reads {gv!r} for sheet {t}, column {c}, row {r} of the workbook [[10, 20], [30]] / [[40]]; expected {want!r}',
+                  fact=f'-> {gv!r}', loc=loc_of(fc.module.path, fc.node))
+
+
+def _rest_of_r3(run: Run, src, lib):
+    try:
+        sub_ = Run('tmp', run.tier, run.seed, quiet=True)
+        _fill_cell_eval(sub_, src)
+        for o_ in sub_.obligations:
+            if o_['verdict'] == 'holds':
+                run.ok('C06.R3', o_['construct'], o_['fact'], loc=o_['loc'])
+        for f_ in sub_.findings:
+            run.bad('C06.R3', f_['construct'], f_['sub'], f_['message'], loc=f_['loc'])
+        return
+    except AnalysisError as e_:
+        run.note(f'C06.R3 evaluation of _fill_cell skipped: {e_.reason[:100]}')
     # (b) data[t][r][c] guarded by three bounds tests
     ex = src.cls('Excel')
     fc = ex.methods.get('_fill_cell')
